@@ -489,12 +489,14 @@ def check_C16(F, tier, t0):
 def check_C18(F, tier, t0):
     R = Report('C18')
     guarded(R, 'L', engine_l.rule_random_graph, F, R)
-    R.floor('L:refuse-not-truncate', 1); R.floor('L:candidate-push-sites', 2); R.floor('L:complete-count', 1); R.floor('L:truth-table-rows', 22)
+    guarded(R, 'L writers', engine_l.rule_graph_writers, F, R)
+    guarded(R, 'L colours', engine_l.rule_colour_vertices, F, R)
+    R.floor('L:refuse-not-truncate', 1); R.floor('L:candidate-push-sites', 2); R.floor('L:complete-count', 1); R.floor('L:truth-table-rows', 22); R.floor('L:edge-writer-sites', 3)
     return finish(R, 'other', tier, t0,
         'Clauses: generate_graph returns Ok only with the checked slice candidates[0..E] and Err otherwise (refuse, never truncate; exactly E edges by the slice contract); '
         'directed candidates are inserted iff i != j, undirected ones are taken from vertices[(i+1)..] (no self pair, each pair once); --complete requests V(V-1) resp. '
         'V(V-1)/2 (polynomial normal form); --convert keeps an edge unless -u and its reverse is already present; the colouring product graph connects (v,c),(w,d) iff '
-        'v != w and (c != d or v,w not adjacent in either direction). Not decided: randomness of the shuffle, CSV parsing, the graph-theoretic reduction itself.',
+        'v != w and (c != d or v,w not adjacent in either direction); each writer emits every edge of the selection once, source first, `--` inside `graph` iff -u, `->` inside `digraph` otherwise. Not decided: randomness of the shuffle, CSV parsing, the graph-theoretic reduction itself.',
         TRUSTED, [], './check C18')
 
 def check_C19(F, tier, t0):
